@@ -114,10 +114,12 @@ class PredEval:
         self.max_rows = max_rows
         self.subjects: dict[str, list[Any]] = {}
         self.atoms: list[str] = []
+        self.notes: set[str] = set()
         self._const_cache: dict[int, Any] = {}
         self._key_cache: dict[tuple, str] = {}
         self._cmp_nodes: dict[tuple, ast.Compare] = {}
         self._keep: list[Any] = []  # keeps synthesised nodes alive so that id()-keyed caches stay valid
+        self.body: list[ast.stmt] = self._prep()
         self._collect()
         # values the calling rule wants told apart even if the function no longer mentions them (else they hide in OTHER)
         for k, vals in (domains or {}).items():
@@ -165,9 +167,84 @@ class PredEval:
 
     # -- collection of subjects and atoms --------------------------------------------------------
 
+    def _prep(self) -> list[ast.stmt]:
+        """The function body with pure local aliases inlined: a name bound exactly once to an attribute/subscript/name chain that
+        the function never assigns to (`cmd = self._sent_cmd`, `hdr = cmd.rx_header`) is replaced by that chain everywhere, so
+        that a test spelled through the alias and the same test spelled in full are one atom / one subject."""
+        fn = self.f.node
+        params = {a.arg for a in fn.args.posonlyargs + fn.args.args + fn.args.kwonlyargs}
+        count: dict[str, int] = {}
+        cand: dict[str, ast.expr] = {}
+        stores: set[str] = set()
+        nested = {id(x) for d in ast.walk(fn) if d is not fn and isinstance(d, (ast.FunctionDef, ast.AsyncFunctionDef, ast.Lambda)) for x in ast.walk(d)}
+        for n in ast.walk(fn):
+            if id(n) in nested:
+                continue
+            if isinstance(n, (ast.Attribute, ast.Subscript)) and isinstance(n.ctx, (ast.Store, ast.Del)):
+                stores.add(norm(n))
+            if isinstance(n, ast.Name) and isinstance(n.ctx, (ast.Store, ast.Del)):
+                count[n.id] = count.get(n.id, 0) + 1
+            if isinstance(n, (ast.Assign, ast.AnnAssign)) and getattr(n, "value", None) is not None:
+                tg = n.targets if isinstance(n, ast.Assign) else [n.target]
+                if len(tg) == 1 and isinstance(tg[0], ast.Name):
+                    cand[tg[0].id] = n.value
+
+        def chain(e: ast.expr) -> bool:
+            while isinstance(e, (ast.Attribute, ast.Subscript)):
+                if isinstance(e, ast.Subscript) and not all(isinstance(x, (ast.Constant, ast.Slice, ast.UnaryOp, ast.Name, ast.Attribute)) for x in ast.walk(e.slice) if isinstance(x, ast.expr) and not isinstance(x, ast.expr_context)):
+                    return False
+                e = e.value
+            return isinstance(e, ast.Name)
+
+        alias = {k: v for k, v in cand.items() if count.get(k) == 1 and k not in params and isinstance(v, (ast.Attribute, ast.Subscript)) and chain(v)}
+        # the aliased chain (or a prefix of it) must not be assigned in this function, else the alias holds an older value
+        def assigned(e: ast.expr) -> bool:
+            cur: ast.expr = e
+            while isinstance(cur, (ast.Attribute, ast.Subscript)):
+                if norm(cur) in stores:
+                    return True
+                cur = cur.value
+            return False
+
+        alias = {k: v for k, v in alias.items() if not assigned(v)}
+        # resolve alias-of-alias, dropping any whose chain is rooted in a non-alias re-bound local
+        for _ in range(4):
+            alias = {k: _clone(v, alias) for k, v in alias.items()}
+        for k, v in list(alias.items()):
+            root = v
+            while isinstance(root, (ast.Attribute, ast.Subscript)):
+                root = root.value
+            if isinstance(root, ast.Name) and root.id not in params and root.id not in ("self", "cls") and count.get(root.id, 0) != 0:
+                del alias[k]
+        self.inlined_aliases = {k: norm(v) for k, v in alias.items()}
+        if not alias:
+            return list(fn.body)
+
+        def drop(st: ast.stmt) -> bool:
+            return isinstance(st, (ast.Assign, ast.AnnAssign)) and (st.targets if isinstance(st, ast.Assign) else [st.target])[0:1] and isinstance((st.targets if isinstance(st, ast.Assign) else [st.target])[0], ast.Name) and (st.targets if isinstance(st, ast.Assign) else [st.target])[0].id in alias and len(st.targets if isinstance(st, ast.Assign) else [st.target]) == 1
+
+        def rewrite(stmts: list[ast.stmt]) -> list[ast.stmt]:
+            out: list[ast.stmt] = []
+            for st in stmts:
+                if drop(st):
+                    continue
+                new = _clone(st, alias)
+                for fld in ("body", "orelse", "finalbody"):
+                    sub = getattr(st, fld, None)
+                    if isinstance(sub, list) and sub and isinstance(sub[0], ast.stmt):
+                        setattr(new, fld, rewrite(sub) or ([ast.Pass()] if fld == "body" else []))
+                if isinstance(st, ast.Try):
+                    new.handlers = [_clone(h, alias) for h in st.handlers]
+                out.append(new)
+            return out
+
+        body = rewrite(list(fn.body))
+        self._keep.append(body)
+        return body
+
     def _collect(self) -> None:
         locals_: set[str] = set()
-        for n in ast.walk(self.f.node):
+        for n in self._walk_body():
             if isinstance(n, ast.Assign):
                 for t in n.targets:
                     for x in ast.walk(t):
@@ -182,7 +259,7 @@ class PredEval:
         # comparisons on the aliased expression, which is what gets enumerated
         self._alias: dict[str, ast.expr] = {}
         seen_count: dict[str, int] = {}
-        for n in ast.walk(self.f.node):
+        for n in self._walk_body():
             pairs = []
             if isinstance(n, ast.Assign) and len(n.targets) == 1:
                 t = n.targets[0]
@@ -197,12 +274,16 @@ class PredEval:
                 if isinstance(b, (ast.Attribute, ast.Subscript)):
                     self._alias[a.id] = b
         self._alias = {k: v for k, v in self._alias.items() if seen_count.get(k) == 1}
-        for n in ast.walk(self.f.node):
+        for n in self._walk_body():
             if isinstance(n, ast.Compare):
                 left = n.left
                 for op, right in zip(n.ops, n.comparators):
                     self._note_compare(left, op, right)
                     left = right
+
+    def _walk_body(self):
+        for st in self.body:
+            yield from ast.walk(st)
 
     def _note_compare(self, left: ast.expr, op: ast.cmpop, right: ast.expr) -> None:
         lc, rc = self._const(left), self._const(right)
@@ -277,7 +358,7 @@ class PredEval:
             if k in env:
                 self._loc[k] = env[k]
         try:
-            self._block(self.f.node.body)
+            self._block(self.body)
         except _Return as r:
             return r.v
         return None
@@ -350,6 +431,22 @@ class PredEval:
                         break
                 else:
                     self._block(st.orelse)
+            elif isinstance(st, ast.Try):
+                # the table describes the paths on which nothing raises inside the try: body, else-suite, finally-suite; the
+                # handlers' paths are exceptional and are not rows (stated in the table's notes)
+                self.notes.add("try: handlers not evaluated (rows are the non-raising paths)")
+                try:
+                    self._block(st.body)
+                    self._block(st.orelse)
+                except (_Return, _Continue, _Break):
+                    self._block(st.finalbody)
+                    raise
+                self._block(st.finalbody)
+            elif isinstance(st, (ast.With, ast.AsyncWith)):
+                for it_ in st.items:
+                    if self._is_effect(it_.context_expr):
+                        self._effects.append(norm(it_.context_expr))
+                self._block(st.body)
             elif isinstance(st, ast.AnnAssign) and st.value is None:
                 continue  # a bare annotation
             elif isinstance(st, ast.Continue):
@@ -454,6 +551,8 @@ class PredEval:
             return True
         if isinstance(e, ast.Name) and isinstance(self._loc.get(e.id), tuple) and self._loc[e.id][:1] == ("opaque",):
             return self._atom(e)
+        if isinstance(e, ast.Call) and isinstance(e.func, ast.Name) and e.func.id == "bool" and len(e.args) == 1 and not e.keywords:
+            return self._truth(e.args[0])
         v = self._val(e) if not isinstance(e, (ast.Call, ast.Attribute, ast.Subscript)) or norm(e) in self._env or (isinstance(e, ast.Name)) else None
         if isinstance(e, (ast.Call, ast.Attribute, ast.Subscript)) and norm(e) not in self._env:
             c = self._const(e)
